@@ -735,6 +735,16 @@ class Gen:
                 body.append(("assign", tgt, ("poly", add(var(tgt), var("kv")))))
                 self.data = self.data + ["kv"]
                 self.feat("constant-defined-from-loop-variable")
+        if self.data and r.random() < 0.1:
+            # a loop constant with a fixed value compared with a literal by an inequality (or ==) in a branch condition: after constant
+            # folding the atom reads <number> cop <number> and must be decided the right way round
+            kv_, lit = r.choice([(3, 5), (5, 3), (0, 1), (4, -1), (F(1, 2), 1), (2, 2)])
+            cop = r.choice(["<", ">", "<=", ">=", "<", ">"] + (["=="] if kv_ == lit else []))
+            self.init.append(("assign", "kl", ("poly", num(kv_))))
+            zz = r.choice(self.data)
+            body.append(("if", [(("atom", var("kl"), cop, num(lit)), [("assign", zz, ("poly", add(var(zz), num(1))))])],
+                         [("assign", zz, ("poly", add(var(zz), num(10))))]))
+            self.feat("loop-constant-compared-with-literal")
         if self.data and r.random() < 0.12:
             # a loop constant with a RANDOM initial value (choice / draw in the init block, never assigned in the body): it is a
             # random variable, not a number - E(kr**2) != E(kr)**2 and it is correlated with everything computed from it
